@@ -88,7 +88,7 @@ def _content(sel, tok_p, tok_q):
     raise ValueError(sel)
 
 
-def monitor_history(d, nfiles=2, prefix=()):
+def monitor_history(d, nfiles=2, prefix=(), cmenu=None):
     """prefix: concrete (file, content) events applied (each followed by a scan) before the d
     symbolic ones; their tokens are the constants 1000+i."""
     prefix = [tuple(x) for x in prefix]
@@ -104,6 +104,8 @@ def monitor_history(d, nfiles=2, prefix=()):
         dts = [dt0, dt1, dt2, dt3][:d]
         for i in range(d):
             if not (0 <= fsel[i] < nfiles and 0 <= csel[i] <= RESERVED and 1 <= dts[i] <= 5):
+                return True
+            if cmenu is not None and csel[i] not in cmenu:
                 return True
         for i in range(d, 4):
             if [f0, f1, f2, f3][i] or [c0, c1, c2, c3][i] or [t0, t1, t2, t3][i] or [dt0, dt1, dt2, dt3][i]:
@@ -371,6 +373,15 @@ def conditions(tier):
         out.append(Cond("monitor-%s-d2" % name, "monitor_history", dict(d=2, nfiles=nf, prefix=[list(x) for x in pre]),
                         bounds="concrete prefix %s then " % ([(FILES[f], CONTENT_NAMES[c]) for f, c in pre],)
                                + hist_bounds % (2, nf), timeout=1500, part="monitor"))
+    # deeper histories in the quick tier: three symbolic events behind the basic shadowing prefix, and
+    # behind the 3-file "edit under shadow, shadow again" prefix with a reduced content menu
+    out.append(Cond("monitor-shadow-ab-d3", "monitor_history", dict(d=3, nfiles=2, prefix=[[0, P], [1, P]]),
+                    bounds="concrete prefix [a.json {p}, b.json {p}] then " + hist_bounds % (3, 2), timeout=1500,
+                    part="monitor"))
+    out.append(Cond("monitor-shadow-ab-a-c-d3", "monitor_history",
+                    dict(d=3, nfiles=3, prefix=[[0, P], [1, P], [0, P], [2, P]], cmenu=[ABSENT, EMPTY, P]),
+                    bounds="concrete prefix [a.json {p}, b.json {p}, a.json edited {p}, c.json {p}] then 3 symbolic "
+                           "events over 3 files x contents {absent, {}, {p}}", timeout=1500, part="monitor"))
     if thorough:
         for fi in range(2):
             for ci in range(RESERVED + 1):
